@@ -1006,6 +1006,9 @@ theorem main0Match_A {f : F} (hf : FA f) {fuel : Nat} {cfg : Cfg} {scope : Name}
     | raise e =>
       simp only at heq
       split at heq
+      · inj2 heq
+        exact ⟨D_ev_nondrop _ _ rfl, rfl, Or.inl rfl⟩
+      split at heq
       · split at heq
         · rename_i s3 h1
           inj2 heq
